@@ -14,4 +14,10 @@ func initIterator() {
 	IteratorBaseMixin = NewMixin()
 	IteratorInterface.AddConstantString("Base", Ref(IteratorBaseMixin))
 	RegisterNativeMixin("Std::Iterator::Base", "value.IteratorBaseMixin")
+
+	// classes created before this mixin existed (headers: include Iterator::Base)
+	GeneratorClass.IncludeMixin(IteratorBaseMixin)
+	StringCharIteratorClass.IncludeMixin(IteratorBaseMixin)
+	StringByteIteratorClass.IncludeMixin(IteratorBaseMixin)
+	StringGraphemeIteratorClass.IncludeMixin(IteratorBaseMixin)
 }
